@@ -10,6 +10,7 @@ import (
 	"context"
 	"errors"
 	"fmt"
+	"math/rand"
 	"strconv"
 	"strings"
 	"sync"
@@ -78,6 +79,48 @@ func kindIdentity(kind int) bool {
 // mux.Bytes is a []byte: it hashes, but it cannot be a key of either real cache facade (not comparable)
 func kindCacheable(kind int) bool { return kind != kBytes }
 
+// Keys that differ but hash alike (same worker by construction, yet distinct cache entries and distinct rows).
+// collStr: pairs of strings with the same crc32.ChecksumIEEE; a String / Bytes key with id collBase+i is collStr[i].
+// collInt: pairs of 64-bit values whose 8-byte little-endian crc32 is the same (Int64CRC, UInt64CRC, IntCRC, UIntCRC).
+const collBase = int64(1) << 41
+
+var collStr = []string{"plumless", "buckeroo", "ckzwc", "vmntqn", "vjdmuh", "dacse", "vckxen", "mnvcc", "ucyzdxt", "ckdtck",
+	"ecdyzva", "pcnlyn", "vyblqa", "wgbwl", "mnvjy", "vckxlt", "vvqhwx", "xtfqu", "dhsq", "nsrymbv", "kbivd", "veggpi",
+	"mztds", "iybdmcw", "yidgrxn", "upucmw"}
+var collInt = [][2]int64{{2416989667, 5559636898}, {2417116371, 5559763602}, {2417290589, 5559937820}, {2417417293, 5560064524},
+	{2417528159, 5560175390}, {2417654863, 5560302094}, {2417765729, 5560412960}, {2417892433, 5560539664},
+	{2417939947, 5560587178}, {2484126949, 5626774180}, {2484237815, 5626885046}, {2484364519, 5627011750},
+	{2484475385, 5627122616}, {2484602089, 5627249320}}
+
+func keyText(id int64) string {
+	if id >= collBase && id < collBase+int64(len(collStr)) {
+		return collStr[id-collBase]
+	}
+	return "k" + strconv.FormatInt(id, 10)
+}
+func textKey(t string) (int64, bool) {
+	for i, c := range collStr {
+		if c == t {
+			return collBase + int64(i), true
+		}
+	}
+	v, err := strconv.ParseInt(strings.TrimPrefix(t, "k"), 10, 64)
+	return v, err == nil
+}
+
+// a pair of distinct keys of this type with the same HashedInt(), if the type has such pairs
+func collidingPair(kind int, r *rand.Rand) (a, b int64, ok bool) {
+	switch kind {
+	case kString, kBytes:
+		i := 2 * r.Intn(len(collStr)/2)
+		return collBase + int64(i), collBase + int64(i) + 1, true
+	case kInt64CRC, kUInt64CRC, kIntCRC, kUIntCRC:
+		p := collInt[r.Intn(len(collInt))]
+		return p[0], p[1], true
+	}
+	return 0, 0, false
+}
+
 func mkKey(kind int, id int64) mux.Hashed2Int {
 	switch kind {
 	case kInt:
@@ -91,7 +134,7 @@ func mkKey(kind int, id int64) mux.Hashed2Int {
 	case kUInt64CRC:
 		return mux.UInt64CRC(uint64(id))
 	case kString:
-		return mux.String("k" + strconv.FormatInt(id, 10))
+		return mux.String(keyText(id))
 	case kInt32CRC:
 		return mux.Int32CRC(id)
 	case kIntCRC:
@@ -115,7 +158,7 @@ func mkKey(kind int, id int64) mux.Hashed2Int {
 	case kUIntCRC:
 		return mux.UIntCRC(uint64(id))
 	case kBytes:
-		return mux.Bytes("k" + strconv.FormatInt(id, 10))
+		return mux.Bytes(keyText(id))
 	}
 	panic("kind")
 }
@@ -179,7 +222,7 @@ func keyID(k interface{}) int64 {
 	case mux.Bytes:
 		return keyID(mux.String(x))
 	case mux.String:
-		if v, err := strconv.ParseInt(strings.TrimPrefix(strings.TrimPrefix(string(x), "bytes:"), "k"), 10, 64); err == nil {
+		if v, ok := textKey(strings.TrimPrefix(string(x), "bytes:")); ok {
 			return v
 		}
 	}
